@@ -190,6 +190,10 @@ func (p *Parser) Parse() (al align.Alignment, err error) {
 				return
 			}
 		}
+		if al.NbSequences() == 0 || al.Length() == 0 {
+			err = fmt.Errorf("no sequence in this Nexus file")
+			return
+		}
 		// We check that tax labels are the same as alignment sequence names
 		if taxlabels != nil {
 			al.Iterate(func(name string, sequence string) bool {
